@@ -629,8 +629,14 @@ class HyASTCompiler:
 
     @builds_model(Integer, Float, Complex)
     def compile_numeric_literal(self, x):
-        return asty.Constant(x, value =
-            {Integer: int, Float: float, Complex: complex}[type(x)](x))
+        value = {Integer: int, Float: float, Complex: complex}[type(x)](x)
+        if type(x) is not Complex and (value < 0 or str(value) == "-0.0"):
+            # Python has no negative literals, and `ast.unparse` (hence
+            # `hy2py`) doesn't parenthesize a negative constant, so
+            # `(** -1 2)` would print as `-1 ** 2`. Use a unary minus.
+            return asty.UnaryOp(x, op=ast.USub(),
+                operand=asty.Constant(x, value=-value))
+        return asty.Constant(x, value=value)
 
     @builds_model(Symbol)
     def compile_symbol(self, symbol):
